@@ -30,13 +30,18 @@ def load(prop):
 
 
 def known_findings(prop):
-    path = os.path.join(VERIF, "known_findings.json")
-    try:
-        data = json.load(open(path))
-    except FileNotFoundError:
-        return [], []
-    op = [f for f in data.get("findings", []) if f["property"] == prop]
-    fx = [f for f in data.get("fixed", []) if f["property"] == prop]
+    paths = [os.path.join(VERIF, "known_findings.json")]
+    extra = os.environ.get("VERIF_EXTRA_FINDINGS")  # development aid only: proposed entries not yet merged
+    if extra:
+        paths.append(extra)
+    op, fx = [], []
+    for path in paths:
+        try:
+            data = json.load(open(path))
+        except FileNotFoundError:
+            continue
+        op += [f for f in data.get("findings", []) if f["property"] == prop]
+        fx += [f for f in data.get("fixed", []) if f["property"] == prop]
     return op, fx
 
 
@@ -365,6 +370,11 @@ def main(argv):
     if argv[0] == "--shard":
         prop, tier, seed, sh, n, out = argv[1:7]
         return shard_main(prop, tier, int(seed), int(sh), int(n), out)
+    if argv[0] == "--with-patch":
+        # ./check --with-patch <patch> <ID> [tier]: run a check against a scratch copy of the tree with the patch applied
+        rc, out = apply_and_check(argv[2].upper(), argv[1], argv[3] if len(argv) > 3 else "quick")
+        print(out)
+        return rc if rc is not None else 2
     if argv[0] == "--selftest":
         return selftest(argv[1] if len(argv) > 1 else "all", "mutants")
     if argv[0] == "--seeded":
